@@ -25,7 +25,8 @@ EXPLANATION = (
 )
 RULES = {
     "R4.1": "returned iterate == Bellman sweep - self.gain (coefficient -1; without it values diverge for any non-zero gain)",
-    "R4.2": "self.gain is written on every sweep from the sweep result at a constant reference index; it starts at 0",
+    "R4.2": "self.gain is written on every sweep from the sweep result at a constant reference index",
+    "R4.5": "the gain the first sweep subtracts is the reference component of the initial values (self.gain = values[ref] after initialisation): the update `gain = iterate[ref]` relies on gain == values[ref], and with any other start a run that converges at once - e.g. warm-started from earlier relative values - reports gain + values0[ref] instead of the gain",
     "R4.4": "every path from the solve loop to the return extracts the policy from the final relative values (greedy w.r.t. self.values at gamma = 1), also on a second solve() call",
     "R4.3": "the wrapped sweep is ValueIteration's (no kernel override), gamma is validated == 1, measure == span(new iterate, previous values)",
 }
@@ -57,6 +58,7 @@ def run(ctx: Context, col) -> None:
     # R4.2
     g1 = I.attrs.get("gain")
     assigns = [s for s in ast.walk(fn) if isinstance(s, ast.Assign) and any(is_self_attr(x, "gain") for x in s.targets)]
+    hit = None
     ok2, why2 = False, "self.gain is not re-assigned in the step: the subtracted gain stays at its initial value"
     if g1 is not None and g1 != S("GAIN") and len(assigns) >= 1:
         v = assigns[-1].value
@@ -90,9 +92,15 @@ def run(ctx: Context, col) -> None:
     from .solverterms import solver_interp
     I0 = solver_interp(ctx, cls, "span")
     I0.call_method("_initialize_solver_state_elements")
-    ok0 = I0.attrs.get("gain") == ZERO
-    col.add("R4.2", "RelativeValueIteration._initialize_solver_state_elements", io.module.relpath, ifn.lineno, ok0,
-            "gain starts at 0" if ok0 else f"gain starts at {show_norm(I0.attrs.get('gain')) if I0.attrs.get('gain') else None}", text="initial gain")
+    g0, v0 = I0.attrs.get("gain"), I0.attrs.get("values")
+    ref = K(hit) if ok2 and hit is not None else None
+    ok0 = g0 is not None and v0 is not None and ref is not None and same(g0, I0.elem(v0, ref))
+    col.add("R4.5", "RelativeValueIteration._initialize_solver_state_elements", io.module.relpath, ifn.lineno, ok0,
+            f"initial gain == initial values[{hit}]" if ok0 else
+            f"gain starts at {show_norm(g0) if g0 else None} while the values start at problem.initial_value(state): for an initial value function with "
+            f"values[{hit if ref is not None else 'ref'}] != 0 the first iterate is sweep - 0, so gain = iterate[ref] is off by values0[ref]; a warm start from a "
+            "converged solution stops at iteration 1 reporting twice the gain",
+            text="initial gain")
     # R4.3
     overridden = [m for m in KERNEL_METHODS if m in cls.methods]
     col.add("R4.3", "RelativeValueIteration", file, cls.node.lineno, not overridden,
@@ -113,5 +121,5 @@ def run(ctx: Context, col) -> None:
     # R4.4 policy from the final values (the RVI instance of C01 R1.3)
     from .c01 import policy_after_loop
     policy_after_loop(ctx, cls, col, "R4.4")
-    for r_, n in (("R4.1", 1), ("R4.2", 3), ("R4.3", 3), ("R4.4", 2)):
+    for r_, n in (("R4.1", 1), ("R4.2", 2), ("R4.3", 3), ("R4.4", 2), ("R4.5", 1)):
         col.floor(r_, n)
